@@ -50,6 +50,8 @@ KIND_DEPENDS = {
     "row": ["sqlalchemy.engine._row_cy", "sqlalchemy.engine._result_cy"],
     "result": ["sqlalchemy.engine._result_cy", "sqlalchemy.engine._row_cy", "sqlalchemy.engine._util_cy"],
     "distill": ["sqlalchemy.engine._util_cy", "sqlalchemy.util._immutabledict_cy"],
+    "sqlresult": ["sqlalchemy.engine._result_cy", "sqlalchemy.engine._row_cy", "sqlalchemy.engine._util_cy",
+                  "sqlalchemy.engine._processors_cy", "sqlalchemy.util._immutabledict_cy"],
 }
 
 
@@ -134,6 +136,7 @@ MODULE_OF_KIND = {
     "anon": "sqlalchemy.sql._util_cy",
     "row": "sqlalchemy.engine._row_cy",
     "result": "sqlalchemy.engine._result_cy",
+    "sqlresult": "sqlalchemy.engine._result_cy",
 }
 
 
